@@ -73,6 +73,7 @@ pub fn stages(id: &str) -> Vec<Stage> {
         "C04" => vec![
             st(C04 { params: Params::default().hint_heavy().with_soft(4, 250), stage: "release" }, 20_000, 800_000, Release),
             st(C04 { params: Params::default().hint_heavy().with_soft(4, 250), stage: "debug" }, 20_000, 800_000, Debug),
+            st(C04 { params: Params::cyclic(), stage: "cycles" }, 20_000, 800_000, Release),
         ],
         "C05" => vec![
             st(C05 { params: Params::conflict_heavy().with_soft(2, 100), stage: "main" }, 60_000, 1_500_000, Release),
